@@ -306,6 +306,12 @@ def predict_and_run(binary, cwd, cases, jobs=16):
         return run_case(binary, cwd, c)
     with concurrent.futures.ThreadPoolExecutor(jobs) as ex:
         actual = list(ex.map(go, cases))
+    # A pipe whose read end this process has closed can still have a reader for an instant: a child forked by another
+    # worker thread holds a copy of the descriptor until it execs.  A run with a closed or closing consumer that ended
+    # with status 0 is therefore repeated on its own, with no other thread forking, before it is believed.
+    for i, c in enumerate(cases):
+        if c.mode in ("closed", "consume") and actual[i][0] == ("exit", 0):
+            actual[i] = run_case(binary, cwd, c)
     res = []
     for i, (c, p) in enumerate(zip(cases, parsed)):
         if p["kind"] == "usage":
